@@ -8,7 +8,7 @@ META = dict(
     category='model_checking',
     engine='WcMtime',
     technique='TLA+ spec WcMtime: TLC exhaustive over a coarse clock + every generated behaviour replayed on a real LocalWorkingCopy with forced mtimes, judged by TLC',
-    text='TLC checks on the WcMtime state machine (check-out write, state save, same-size user edit, snapshot stat, clock tick, one action each) that with the guard "clean iff same (type, mtime, size) and recorded mtime < state-file mtime" every edit made while no jj command runs is seen by the next snapshot, for every interleaving up to 3 (thorough 5) coarse ticks, 2 check-outs, 2 (3) snapshots, 3 (4) edits; the "<=" guard is a negative config that fails. Then TLC enumerates every complete behaviour of two smaller instances (up to 2 ticks x 1 snapshot command x 2 edits, and 1 tick x 3 snapshot commands x 2 edits, i.e. with one or two no-change snapshots interposed between the state save and the edits) and each one is replayed on a real working copy: real check-out and state save, same-size edits, the mtimes of the edited file and of tree_state forced to the model ticks at 1 ms, 1 s and 2 s granularity, the workspace reloaded from disk for every snapshot; TLC re-runs the model along each behaviour and judges what the real snapshot recorded against the contract SeenOK.',
+    text='TLC checks on the WcMtime state machine (check-out write, state save, same-size user edit, "restore an older copy" (same size, mtime 1 or 2 ticks older than the recorded one), snapshot stat, clock tick, one action each) that with the guard "clean iff same (type, mtime, size) and recorded mtime < state-file mtime" every edit made while no jj command runs is seen by the next snapshot, for every interleaving up to 3 (thorough 5) coarse ticks, 2 check-outs, 2 (3) snapshots, 3 (4) edits; the "<=" guard is a negative config that fails. Then TLC enumerates every complete behaviour of two smaller instances (up to 2 ticks x 1 snapshot command x 2 edits, and 1 tick x 3 snapshot commands x 2 edits, i.e. with one or two no-change snapshots interposed between the state save and the edits) and each one is replayed on a real working copy: real check-out and state save, same-size edits, the mtimes of the edited file and of tree_state forced to the model ticks at 1 ms, 1 s and 2 s granularity, the workspace reloaded from disk for every snapshot; TLC re-runs the model along each behaviour and judges what the real snapshot recorded against the contract SeenOK.',
     note='One tracked file (the decision is per file against one own_mtime). Edits made while a jj command is running carry no requirement (the model tracks them as noreq). Timestamps are forced after the fact with File::set_modified (tree_state only right after a real rewrite, detected by inode; a finish() that does not rewrite it leaves whatever mtime jj left); the recorded check-out mtime is the real one and anchors the tick scale. Trusted: TLC, the 150-line replayer harness/jjconf/src/bin/wc/mtime.rs.',
     design='4 C26',
 )
@@ -21,7 +21,7 @@ def nontrivial(r):
     if r.get("op") != "mtime":
         return False
     acts = [s["a"] for s in r["steps"]]
-    return "UserEdit" in acts
+    return any(a in acts for a in ("UserEdit", "RestoreOld1", "RestoreOld2"))
 
 
 def sig(r, verdict):
@@ -39,10 +39,13 @@ def run(ctx):
     ctx.add_mc(r, cfg)
     vf.tlc_mc("MC_WcMtime", "MC_WcMtime_neg_le", expect_violation="Inv_Seen", workers=4)
     ctx.cov["tlc_runs"].append({"run": "negative:le-guard", "outcome": "fails as required (Inv_Seen)"})
+    vf.tlc_mc("MC_WcMtime", "MC_WcMtime_neg_clean_le", expect_violation="Inv_Seen", workers=4)
+    ctx.cov["tlc_runs"].append({"run": "negative:clean-le (mtime <= recorded counts as clean)", "outcome": "fails as required (Inv_Seen)"})
     # S->I: every complete behaviour of the generator instance
     # two generator instances: more clock ticks with one snapshot command, and up to three
     # snapshot commands (no-change snapshots interposed between the save and the edits)
-    gens = ctx.q(["MC_WcMtime_gen", "MC_WcMtime_gen_snaps"], ["MC_WcMtime_gen_thorough", "MC_WcMtime_gen_snaps_thorough"])
+    gens = ctx.q(["MC_WcMtime_gen", "MC_WcMtime_gen_snaps", "MC_WcMtime_gen_restore"],
+                 ["MC_WcMtime_gen_thorough", "MC_WcMtime_gen_snaps_thorough", "MC_WcMtime_gen_restore"])
     behaviours = []
     for gen in gens:
         bs, g = vf.tlc_generate("MC_WcMtime", gen, timeout=ctx.q(300, 1200))
